@@ -381,10 +381,13 @@ func specEncLen(s structEncoder, n int) int {
 // ---- ParseField (C16): the decoder's own indexing, slicing and offset arithmetic -------------------------
 // Package reflect is an opaque dependency here (arbitrary results, its own panics not modelled); recursive
 // calls go through this contract. Checked for every byte string: no index or slice expression of
-// ParseField leaves `bytes`, no offset computation wraps around.
+// ParseField leaves `bytes`, no offset computation wraps around. INTEGER and ENUMERATED contents are taken
+// as two's complement (C05: the value handed to reflect is the signed value of the content octets).
 //@ func ParseField [C16]
 //@   reflect-validity
 //@   requires v.IsValid()
+//@   assert "v.Set(reflect.ValueOf(Enumerated(val)))": [C05] 0 < len(bytes)-talOff && len(bytes)-talOff <= 8 ==> val == specSigned(specBE(bytes[talOff:], len(bytes)-talOff), len(bytes)-talOff, bytes[talOff])
+//@   assert "val.SetInt(parsedInt)": [C05] 0 < len(bytes)-talOff && len(bytes)-talOff <= 8 ==> parsedInt == specSigned(specBE(bytes[talOff:], len(bytes)-talOff), len(bytes)-talOff, bytes[talOff])
 //@   linear valArray, structParams
 //@   loop 0: invariant 0 <= i && len(structParams) == i
 //@   loop 1: invariant 1 <= i
